@@ -168,8 +168,17 @@ func fpRun(t *testing.T, r *vh.Report, prop string) {
 				}
 				key := fmt.Sprintf("%s/%s/added=%d", cfg.name, strings.Join(acts, ","), len(added))
 				dir := filepath.Join(scratch, fmt.Sprintf("p%d", caseIdx))
-				os.MkdirAll(filepath.Join(dir, "o"), 0o755)
-				os.MkdirAll(filepath.Join(dir, "n"), 0o755)
+				os.MkdirAll(dir, 0o755)
+				// layout: two stand-alone directories, or (every other case) two package directories
+				// of ONE module, where the qualified names of old and new functions differ
+				od, nd := "o", "n"
+				if (code+ai)%2 == 1 {
+					od, nd = "legacy", "current"
+					os.WriteFile(filepath.Join(dir, "go.mod"), []byte("module example.com/moved\n\ngo 1.21\n"), 0o644)
+					key += "/one-module"
+				}
+				os.MkdirAll(filepath.Join(dir, od), 0o755)
+				os.MkdirAll(filepath.Join(dir, nd), 0o755)
 				render := func(fs []fpFunc) string {
 					var l []string
 					seenCalc := false
@@ -186,7 +195,7 @@ func fpRun(t *testing.T, r *vh.Report, prop string) {
 					return progfam.RenderFile(l)
 				}
 				oldSrc, newSrc := render(oldF), render(newF)
-				op, np := filepath.Join(dir, "o", "f.go"), filepath.Join(dir, "n", "f.go")
+				op, np := filepath.Join(dir, od, "f.go"), filepath.Join(dir, nd, "f.go")
 				os.WriteFile(op, []byte(oldSrc), 0o644)
 				os.WriteFile(np, []byte(newSrc), 0o644)
 				out, err := ComputeDiff(RealFileSystem{}, op, np)
